@@ -30,7 +30,7 @@ def run(repo: Repo, tier, rep: Report):
     try:
         n = check_inter_event(repo, rep)
         rep.floor("inter-event cases interpreted", n, 60)
-        m = check_ratio_statistics(repo, rep)
+        m = check_ratio_statistics(repo, rep, tier)
         rep.floor("ratio-statistic valuations interpreted", m, 80)
     except AnalysisError:
         if not impure:
